@@ -105,7 +105,9 @@ func faultEntry(r *detsim.Rand, kind, pos string, i int) Entry {
 	stem := name[:len(name)-len(".pb.go")]
 	switch {
 	case len(kind) > 6 && kind[:6] == "break:":
-		return Entry{Name: name, Kind: KGo, File: GenHealthy(r, "pb", true), Break: kind[6:], Arg: r.Intn(1 << 16)}
+		// one time in four the broken file carries no annotation at all: a tool that looks for "@tag" before it parses must
+		// leave such a file alone just the same (seeded C19t skipped the parser for files without "@tag" and reformatted them)
+		return Entry{Name: name, Kind: KGo, File: GenHealthy(r, "pb", !r.Chance(1, 4)), Break: kind[6:], Arg: r.Intn(1 << 16)}
 	case len(kind) > 5 && kind[:5] == "perm:":
 		return Entry{Name: name, Kind: KGo, File: GenHealthy(r, "pb", true), Perm: kind[5:]}
 	case len(kind) > 6 && kind[:6] == "shape:":
@@ -197,6 +199,57 @@ func SystematicC19(seed uint64) []*Plan {
 			}
 		}
 	}
+	plans = append(plans, bulkPlans(seed)...)
+	return plans
+}
+
+// bulkPlans: directories whose TOTAL size or entry count is far beyond what the seeded directories reach - 20 and 36 files
+// of half a megabyte to a megabyte each (18 and 36 MB per invocation, crossing 1, 2, 4, 8, 16 and 32 MiB of source
+// handled by one process) and 1100 small files - each with a file that does not parse near the front. Whatever the tool
+// keeps per invocation (a shared token.FileSet, a buffer, a table of open files) grows with the directory (seeded C19u
+// replaced a shared FileSet once it held 8 MiB, in the middle of a file).
+func bulkPlans(seed uint64) []*Plan {
+	var plans []*Plan
+	for bi, cfg := range []struct {
+		n, size int
+		mode   string
+	}{{36, 1 << 20, EvRunD}, {20, 1 << 19, EvRunP}} {
+		r := detsim.NewRand(detsim.Mix(seed, "C19/bulk", uint64(bi)))
+		p := &Plan{Prop: "C19", Case: fmt.Sprintf("bulk-bytes|%dx%d|%s", cfg.n, cfg.size, cfg.mode)}
+		for i := 0; i < cfg.n; i++ {
+			f := GenHealthy(r, "pb", true)
+			f.LongLine = cfg.size - cfg.size/16 + r.Intn(cfg.size/8)
+			e := Entry{Name: fmt.Sprintf("b%03d_bulk.pb.go", i), Kind: KGo, File: f}
+			if i == 1 {
+				e.Break, e.Arg = "stray-token", r.Intn(1<<16)
+			}
+			p.Entries = append(p.Entries, e)
+		}
+		if cfg.mode == EvRunD {
+			p.Events = []Event{{Op: EvRunD}}
+		} else {
+			p.Events = []Event{{Op: EvRunP, Target: "*.go"}}
+		}
+		plans = append(plans, p)
+	}
+	r := detsim.NewRand(detsim.Mix(seed, "C19/bulk", 99))
+	p := &Plan{Prop: "C19", Case: "bulk-count|1100 files|run-d"}
+	var kinds []*GoFile
+	for i := 0; i < 6; i++ {
+		kinds = append(kinds, GenHealthy(r, "pb", i != 5))
+	}
+	for i := 0; i < 1100; i++ {
+		e := Entry{Name: fmt.Sprintf("c%04d_many.pb.go", i), Kind: KGo, File: kinds[i%len(kinds)]}
+		switch i {
+		case 2, 600, 1030:
+			e.Break, e.Arg = BreakKinds[i%len(BreakKinds)], i
+		case 3:
+			e = Entry{Name: "c0003_many.txt", Kind: KText, File: kinds[0]}
+		}
+		p.Entries = append(p.Entries, e)
+	}
+	p.Events = []Event{{Op: EvRunD}}
+	plans = append(plans, p)
 	return plans
 }
 
@@ -308,6 +361,11 @@ func GenC07(r *detsim.Rand) *Plan {
 	kinds := AllFaultKinds()
 	nev := 2 + r.Intn(5)
 	for i := 0; i < nev; i++ {
+		if i > 0 && r.Chance(1, 5) {
+			// between two runs the user edits some annotations of a file (not a fault: fault-free histories have such events too)
+			p.Events = append(p.Events, Event{Op: EvEdit, Target: names[r.Intn(len(names))], Arg: r.Intn(1 << 20)})
+			continue
+		}
 		if !faultFree && r.Chance(1, 3) {
 			if r.Chance(1, 2) {
 				// break (or otherwise replace) an existing file
